@@ -25,8 +25,20 @@ class ToolError(Exception):
     pass
 
 
+_pending_verdicts = []
+
+
 def tool_error(msg):
+    """Exit 2 (never a verdict) - unless violations were already found in this run: a violation that is on record is
+    reported (exit 1) even when a later self-test, guard or control of the check fails, because those are calibrated for
+    a tree on which the property holds and may legitimately fail on one where it does not."""
     print("TOOL-ERROR: " + msg, file=sys.stderr)
+    for v in _pending_verdicts:
+        if v.violations and not v.finished:
+            print("(violations found before the tool error are reported)", file=sys.stderr)
+            rc = v.finish()
+            sys.stdout.flush()
+            sys.exit(rc)
     sys.stdout.flush()
     sys.exit(2)
 
@@ -276,12 +288,17 @@ def load_known():
 class Verdicts:
     """Collects violations, matches them against known findings by signature, prints the lines."""
 
-    def __init__(self, pid):
+    def __init__(self, pid, control=False):
+        """control=True: a scratch collector for a negative control (its 'violations' are expected and never reported)"""
         self.pid = pid
+        self.control = control
         self.known = [k for k in load_known() if k["property"] == pid and k.get("status") == "known"]
         self.violations = []   # (signature, what, replay_obj)
         self.known_hits = {}   # finding id -> count
         self.known_examples = {}
+        self.finished = False
+        if not control:
+            _pending_verdicts.append(self)
 
     def add(self, signature, what, replay):
         """signature: string computed from the *case*; replay: JSON-able object to reproduce."""
@@ -295,6 +312,7 @@ class Verdicts:
 
     def finish(self, max_lines=25):
         """Print KNOWN-FINDING / VIOLATION lines; return exit code."""
+        self.finished = True
         for k in self.known:
             if k["id"] in self.known_hits:
                 print("KNOWN-FINDING: property=%s %s [%s; signature %s; hit %d times in this run]" % (
